@@ -1041,6 +1041,23 @@ func c12(args []string) int {
 				idx = append(idx, i)
 			}
 		}
+		// regression scenarios of repaired defects first, with a fixed generous slice (they are few)
+		var prio, rest []int
+		for _, i := range idx {
+			if len(scs[i].Env) > 0 || scs[i].Name == "3:reset-sync-rsync" {
+				prio = append(prio, i)
+			} else {
+				rest = append(rest, i)
+			}
+		}
+		if len(prio) > 0 && budget-tm.Since() > 20*time.Second {
+			pp := (budget - tm.Since()) / 3
+			if pp > 20*time.Second && !thorough {
+				pp = 20 * time.Second
+			}
+			runPhase(prio, pp, 2, maxBound)
+			idx = rest
+		}
 		left := budget - tm.Since()
 		rounds := (len(idx) + par - 1) / par
 		if rounds > 0 && left > 5*time.Second {
